@@ -112,7 +112,11 @@ func main() {
 	cpuprof := flag.String("cpuprofile", "", "write CPU profile")
 	selft := flag.Int("selftest", 0, "validate the term normaliser against z3 on N random cases and exit")
 	seed := flag.Int64("seed", 1, "seed for -selftest")
+	budget := flag.Int("budget", 0, "global wall-clock budget in seconds: jobs stop (inconclusive) when it is used up, results are still written")
 	flag.Parse()
+	if *budget > 0 {
+		globalDeadline = time.Now().Add(time.Duration(*budget) * time.Second)
+	}
 	if *selft > 0 {
 		q, f, msgs := selftest(*selft, *seed)
 		fmt.Printf("{\"cases\": %d, \"solver_queries\": %d, \"disagreements\": %d}\n", *selft, q, f)
